@@ -303,13 +303,24 @@ inductive Tok
 inductive Ty | float | int
   deriving DecidableEq, Repr
 
+/-- the exponent marker found in the token (`_formatter["divider"]`): none (Fortran `1.5-3`), `e` or `E` -/
+inductive Div | none | lower | upper
+  deriving DecidableEq, Repr
+
+def Div.text : Div → Text
+  | .none => []
+  | .lower => ['e']
+  | .upper => ['E']
+
+def Div.ofString (s : String) : Div := if s = "E" then .upper else if s = "" then .none else .lower
+
 /-- `ValueNode._formatter` -/
 structure Formatter where
   valueLength : Nat
   precision : Nat
   zeroPadding : Nat
   sign : Char
-  divider : Text
+  divider : Div
   exponentLength : Nat
   exponentZeroPad : Nat
   asInt : Bool
@@ -320,7 +331,7 @@ structure Formatter where
 def floatDefaults : Formatter :=
   { valueLength := Gen.floatDefaultValueLength, precision := Gen.floatDefaultPrecision,
     zeroPadding := Gen.floatDefaultZeroPadding, sign := Gen.floatDefaultSign,
-    divider := Gen.floatDefaultDivider.toList, exponentLength := Gen.floatDefaultExponentLength,
+    divider := Div.ofString Gen.floatDefaultDivider, exponentLength := Gen.floatDefaultExponentLength,
     exponentZeroPad := Gen.floatDefaultExponentZeroPad, asInt := Gen.floatDefaultAsInt,
     isScientific := Gen.floatDefaultIsScientific }
 
@@ -432,7 +443,7 @@ def Tok.text : Tok → Text
 def isSignCh (c : Char) : Bool := c = '+' || c = '-'
 
 /-- `ValueNode._SCIENTIFIC_FINDER.match(token)`: `(significand digits, dots, digits, divider, exponent)` -/
-def sciMatch (t : Text) : Option (Text × Text × Text × Text × Text) :=
+def sciMatch (t : Text) : Option (Text × Text × Text × Div × Text) :=
   let t := match t with | c :: r => if isSignCh c then r else t | [] => t
   let d1 := t.takeWhile Char.isDigit
   let r := t.dropWhile Char.isDigit
@@ -446,10 +457,10 @@ def sciMatch (t : Text) : Option (Text × Text × Text × Text × Text) :=
     if c = 'e' || c = 'E' then
       let r'' := match r' with | c' :: q => if isSignCh c' then q else r' | [] => r'
       let ex := r''.takeWhile Char.isDigit
-      if ex.isEmpty then none else some (d1, dots, d2, [c], ex)
+      if ex.isEmpty then none else some (d1, dots, d2, (if c = 'e' then Div.lower else Div.upper), ex)
     else if isSignCh c then
       let ex := r'.takeWhile Char.isDigit
-      if ex.isEmpty then none else some (d1, dots, d2, [], ex)
+      if ex.isEmpty then none else some (d1, dots, d2, Div.none, ex)
     else none
   | [] => none
 
@@ -522,7 +533,7 @@ def renderSci (f : Formatter) (d : Dec) : Text :=
   let e := d.exp.getD 0
   let ed := zfill f.exponentZeroPad (Nat.toDigits 10 e.natAbs)
   let ed := ed ++ List.replicate (f.exponentLength - ed.length) ' '
-  s ++ List.replicate (fillZeros f.zeroPadding s (pyBody d)) '0' ++ mantissa d ++ f.divider ++ [expSign e] ++ ed
+  s ++ List.replicate (fillZeros f.zeroPadding s (pyBody d)) '0' ++ mantissa d ++ f.divider.text ++ [expSign e] ++ ed
 
 /-- syntax_node.py:ValueNode._format_float_as -/
 def formatFloatAs (f : Formatter) (x : Num) (sp : FStyle × Nat) : Text :=
